@@ -47,6 +47,14 @@ def _site(an, fn, t, what):
     return "%s#%d" % (what, cache.get(id(t), -1))
 
 
+def _blk(fn, t):
+    m = getattr(fn, "_term_blk", None)
+    if m is None:
+        m = {id(b["term"]): b["i"] for b in fn.blocks}
+        fn._term_blk = m
+    return m.get(id(t), -1)
+
+
 def byte_len(an, st, oid):
     o = st.heap.get(oid)
     if o is None or o.kind != "slice" or o.len is None or not o.esize:
@@ -152,7 +160,7 @@ def call(an, st, fid, fn, t, callee, resolved, args, record):
         return NotImplemented
     if c in ("std::cmp::min", "std::cmp::max", "std::cmp::Ord::min", "std::cmp::Ord::max"):
         if type(args[0]) is IntV and type(args[1]) is IntV:
-            return minmax(c.split("::")[-1], args[0], args[1], rng), st
+            return minmax(c.split("::")[-1], deatom(an, args[0]), deatom(an, args[1]), rng), st
         return an.top_of_str(dty), st
     if c in ("std::convert::Into::into", "std::convert::From::from"):
         a = args[0]
@@ -196,17 +204,17 @@ def call(an, st, fid, fn, t, callee, resolved, args, record):
         idx = args[1]
         if s is None or type(idx) is not IntV:
             if record:
-                an.oblige("mem", fn, _site(an, fn, t, "get_unchecked"), False, mir.stmt_loc(t),
+                an.oblige("mem", fn, _site(an, fn, t, c.split("::")[-1]), False, mir.stmt_loc(t),
                           "get_unchecked: slice or index unknown", {"slice": repr(args[0]), "index": repr(idx)})
             return A.TOP, st
         idx = norm(idx, rng)
         ok = idx.nlo >= 0 and le_proved(idx, s.len, rng, strict=True)
         if record:
-            an.oblige("mem", fn, _site(an, fn, t, "get_unchecked"), ok, mir.stmt_loc(t),
+            an.oblige("mem", fn, _site(an, fn, t, c.split("::")[-1]), ok, mir.stmt_loc(t),
                       "get_unchecked index %r < len %r" % (idx, s.len),
                       None if ok else {"index": repr(idx), "len": repr(s.len)})
             o = st.heap[s.obj]
-            an.mem_log.append({"fn": fn.key, "site": _site(an, fn, t, "get_unchecked"), "obj": s.obj,
+            an.mem_log.append({"fn": fn.key, "site": _site(an, fn, t, c.split("::")[-1]), "obj": s.obj,
                                "off": norm(mul(idx, IntV.const(o.esize)), rng), "width": o.esize,
                                "write": c.endswith("_mut"), "what": "get_unchecked", "loc": mir.stmt_loc(t),
                                "objname": o.name, "elem_index": idx})
@@ -223,7 +231,7 @@ def call(an, st, fid, fn, t, callee, resolved, args, record):
             off = norm(p.off, rng)
             ok = bl is not None and off.nlo >= 0 and le_proved(norm(add(off, need), rng), bl, rng)
             if record:
-                an.oblige("mem", fn, _site(an, fn, t, "from_raw_parts"), ok, mir.stmt_loc(t),
+                an.oblige("mem", fn, _site(an, fn, t, c.split("::")[-1]), ok, mir.stmt_loc(t),
                           "from_raw_parts: %r elements of %d bytes at offset %r within %r bytes" % (n, es, off, bl),
                           None if ok else {"count": repr(n), "offset": repr(off), "object_bytes": repr(bl)})
                 an.raw_parts_log.append({"fn": fn.key, "obj": p.obj, "off": off, "bytes": need,
@@ -241,28 +249,21 @@ def call(an, st, fid, fn, t, callee, resolved, args, record):
     if c in ("std::slice::<impl [T]>::iter", "std::slice::<impl [T]>::iter_mut"):
         s = slice_of(an, st, args[0], fn)
         if s is not None:
-            o = st.heap[s.obj]
-            item = o.elem
-            if c.endswith("iter_mut"):
-                item = A.RefV(("obj", s.obj, (0,)), True)
-            else:
-                item = A.RefV(("obj", s.obj, (0,)), False) if type(o.elem) is not A.SliceV else o.elem
-            return A.IterV("slice", item, s.len.retype(64, False)), st
+            return slice_iter(an, st, fn, t, s, c.endswith("iter_mut")), st
         return NotImplemented
     if c == "std::iter::IntoIterator::into_iter":
         a = args[0]
         if type(a) is A.IterV:
             return a, st
         if type(a) is A.AggV and a.name in ("std::ops::Range", "core::ops::Range") and len(a.fields) == 2:
-            return range_iter(an, st, a.fields[0], a.fields[1], False), st
+            return range_iter(an, st, a.fields[0], a.fields[1], False, site="%s:bb%d" % (fn.key.split("::")[-1], _blk(fn, t))), st
         s = slice_of(an, st, a, fn)
         if s is not None:
-            o = st.heap[s.obj]
-            return A.IterV("slice", A.RefV(("obj", s.obj, (0,)), s.mut), s.len.retype(64, False)), st
+            return slice_iter(an, st, fn, t, s, s.mut), st
         return NotImplemented
     if c == "std::ops::RangeInclusive::<Idx>::new":
         if type(args[0]) is IntV and type(args[1]) is IntV:
-            return range_iter(an, st, args[0], args[1], True), st
+            return range_iter(an, st, args[0], args[1], True, site="%s:bb%d" % (fn.key.split("::")[-1], _blk(fn, t))), st
         return NotImplemented
     if c == "std::iter::Iterator::next":
         it = args[0]
@@ -270,7 +271,7 @@ def call(an, st, fid, fn, t, callee, resolved, args, record):
             it = an.read_target(st, it.target, fn)
         if type(it) is A.AggV and it.name in ("std::ops::Range", "core::ops::Range") and len(it.fields) == 2 \
                 and type(it.fields[0]) is IntV and type(it.fields[1]) is IntV:
-            it = range_iter(an, st, it.fields[0], it.fields[1], False)
+            it = range_iter(an, st, it.fields[0], it.fields[1], False, site="%s:bb%d" % (fn.key.split("::")[-1], _blk(fn, t)))
         if type(it) is A.IterV:
             if it.kind == "empty":
                 return A.none(), st
@@ -289,11 +290,13 @@ def call(an, st, fid, fn, t, callee, resolved, args, record):
         it = args[0]
         if type(it) is A.IterV:
             cnt = it.count
-            if cnt is not None:
+            if it.extra and "pos" in it.extra:
+                idx = it.extra["pos"]
+            elif cnt is not None:
                 idx = IntV(0, max(0, cnt.nhi - 1), 64, False, Aff(0), (cnt.shi - 1) if cnt.shi is not None else None)
             else:
                 idx = IntV(0, (1 << 63) - 1, 64, False)
-            return A.IterV("enumerate", A.AggV("tuple", None, [idx, it.item]), cnt), st
+            return A.IterV("enumerate", A.AggV("tuple", None, [idx, it.item]), cnt, extra=it.extra), st
         return NotImplemented
     if c == "std::iter::Iterator::take":
         it = args[0]
@@ -303,10 +306,26 @@ def call(an, st, fid, fn, t, callee, resolved, args, record):
             item = it.item
             if it.kind == "enumerate" and type(item) is A.AggV:
                 idx = item.fields[0]
-                nidx = IntV(0, max(0, min(idx.nhi, n.nhi - 1)), 64, False, Aff(0),
-                            an._choose_hi(idx.shi, (n.shi - 1) if n.shi is not None else None, rng))
-                item = A.AggV("tuple", None, [nidx, item.fields[1]])
-            return A.IterV(it.kind, item, cnt), st
+                n2 = norm(n, rng)
+                hi_aff = None
+                if n2.shi is not None and idx.shi is not None:
+                    lim = an.loop_atom_info.get(idx.exact().single()[0]) if (idx.exact() is not None and idx.exact().single()) else None
+                    old_hi = lim["hi"] if lim else idx.shi
+                    # min(len-1, n-1): keep the provably smaller, prefer n-1 when it is provably <= len-1
+                    if ((old_hi - (n2.shi - 1)).lo(rng)) >= 0:
+                        hi_aff = n2.shi - 1
+                    elif (((n2.shi - 1) - old_hi).lo(rng)) >= 0:
+                        hi_aff = old_hi
+                if hi_aff is not None:
+                    base = IntV(0, max(0, min(idx.nhi, n2.nhi - 1)), 64, False, Aff(0), hi_aff)
+                    nidx = loop_atom(an, st, "%s:bb%d" % (fn.key.split("::")[-1], _blk(fn, t)), Aff(0), hi_aff, base)
+                else:
+                    nidx = IntV(0, max(0, min(idx.nhi, n2.nhi - 1)), 64, False, Aff(0), None)
+                ref = item.fields[1]
+                if type(ref) is A.RefV and len(ref.target) == 3 and ref.target[2] and ref.target[2][0] == "e":
+                    ref = A.RefV(("obj", ref.target[1], ("e", nidx)), ref.mut)
+                item = A.AggV("tuple", None, [nidx, ref])
+            return A.IterV(it.kind, item, cnt, extra=it.extra), st
         return NotImplemented
 
     # ---- raw pointers -----------------------------------------------------
@@ -317,7 +336,7 @@ def call(an, st, fid, fn, t, callee, resolved, args, record):
             if record and c.endswith("::add"):
                 bl = byte_len(an, st, p.obj)
                 ok = bl is not None and q.off.nlo >= 0 and le_proved(q.off, bl, rng)
-                an.oblige("mem", fn, _site(an, fn, t, "ptr.add"), ok, mir.stmt_loc(t),
+                an.oblige("mem", fn, _site(an, fn, t, ("mut" if "mut_ptr" in c else "const") + "_ptr.add"), ok, mir.stmt_loc(t),
                           "ptr.add stays within (or one past) the object: offset %r of %r bytes" % (q.off, bl),
                           None if ok else {"offset": repr(q.off), "object_bytes": repr(bl)})
             return q, st
@@ -414,6 +433,28 @@ def call(an, st, fid, fn, t, callee, resolved, args, record):
     return NotImplemented
 
 
+def deatom(an, v):
+    """a value that is exactly a loop-item atom, viewed through that atom's own bounds"""
+    ex = v.exact() if v.slo is not None else None
+    sg = ex.single() if ex is not None else None
+    if sg and sg[1] == 1 and sg[2] == 0 and sg[0] in an.loop_atom_info:
+        info = an.loop_atom_info[sg[0]]
+        return IntV(v.nlo, v.nhi, v.bits, v.signed, info["lo"], info["hi"])
+    return v
+
+
+def slice_iter(an, st, fn, t, s, mut):
+    """iterator over a slice: yields a reference to element #pos, pos a position atom in [0, len-1]"""
+    o = st.heap[s.obj]
+    if type(o.elem) is A.SliceV:
+        return A.IterV("slice", o.elem, s.len.retype(64, False))
+    ln = norm(s.len, an.rng_fn(st))
+    pos = IntV(0, max(0, ln.nhi - 1), 64, False, Aff(0), (ln.shi - 1) if ln.shi is not None else None)
+    if ln.shi is not None and s.off is None:
+        pos = loop_atom(an, st, "%s:bb%d" % (fn.key.split("::")[-1], _blk(fn, t)), Aff(0), ln.shi - 1, pos)
+    return A.IterV("slice", A.RefV(("obj", s.obj, ("e", pos)), mut), s.len.retype(64, False), extra={"pos": pos, "obj": s.obj})
+
+
 def minmax(name, a, b, rng):
     if name == "min":
         nlo = min(a.nlo, b.nlo)
@@ -470,18 +511,38 @@ def ceil_div(a, b, bits, signed):
     return IntV(lo, hi, bits, signed, slo, shi)
 
 
-def range_iter(an, st, start, end, inclusive):
+def range_iter(an, st, start, end, inclusive, site=None):
     rng = an.rng_fn(st)
     start = norm(start, rng)
     end = norm(end, rng)
     d = 0 if inclusive else 1
     hi = end.nhi - d
     shi = (end.shi - d) if end.shi is not None else None
-    item = IntV(start.nlo, max(start.nlo, hi), start.bits, start.signed, start.slo, shi)
     if (le_proved(end, start, rng, strict=inclusive)):
-        return A.IterV("empty", item, IntV.const(0), True)
+        return A.IterV("empty", IntV(start.nlo, max(start.nlo, hi), start.bits, start.signed), IntV.const(0), True)
     cnt = sub(end, start)
     if inclusive:
         cnt = add(cnt, IntV.const(1))
     cnt = IntV(max(0, cnt.nlo), max(0, cnt.nhi), 64, False, None, cnt.shi)
+    item = IntV(start.nlo, max(start.nlo, hi), start.bits, start.signed, start.slo, shi)
+    if site is not None and start.slo is not None and shi is not None:
+        # the yielded value as an atom of its own: offsets computed from it stay exact (stride analysis)
+        item = loop_atom(an, st, site, start.slo, shi, item)
     return A.IterV("range", item, cnt)
+
+
+def loop_atom(an, st, site, slo, shi, item):
+    key = (site, slo, shi)
+    a = an.loop_atoms.get(key)
+    if a is None:
+        a = an.new_atom("i@%s" % (site,), -(1 << 70), 1 << 70)
+        an.loop_atoms[key] = a
+        an.facts.append(Aff.atom(a) - slo)        # i >= start
+        an.facts.append(shi - Aff.atom(a))        # i <= end - 1
+        an.loop_atom_info[a] = {"lo": slo, "hi": shi, "site": site}
+    rl, rh = an.atoms[a]
+    lo = max(rl, item.nlo)
+    hi = min(rh, item.nhi)
+    st.arng[a] = (lo, hi)
+    af = Aff.atom(a)
+    return IntV(item.nlo, item.nhi, item.bits, item.signed, af, af)
